@@ -290,12 +290,19 @@ impl<R: Reader> LocationLists<R> {
         let format = unit_encoding.format;
         let input = &mut self.debug_loclists.section.clone();
         input.skip(base.0)?;
-        input.skip(R::Offset::from_u64(
-            index.0.into_u64() * u64::from(format.word_size()),
-        )?)?;
-        input
-            .read_offset(format)
-            .map(|x| LocationListsOffset(base.0 + x))
+        let index_offset = index
+            .0
+            .into_u64()
+            .checked_mul(u64::from(format.word_size()))
+            .ok_or_else(|| Error::UnexpectedEof(input.offset_id()))?;
+        input.skip(R::Offset::from_u64(index_offset)?)?;
+        let offset = input.read_offset(format)?;
+        base.0
+            .into_u64()
+            .checked_add(offset.into_u64())
+            .ok_or(Error::UnsupportedOffset)
+            .and_then(R::Offset::from_u64)
+            .map(LocationListsOffset)
     }
 
     /// Call `Reader::lookup_offset_id` for each section, and return the first match.
